@@ -3826,6 +3826,13 @@ class Evaluator:
                 eff_name, eff_args = name, tuple(args)
                 if name == "update" and len(args) == 1 and args[0][0] in ("setlit",) and len(args[0][1]) == 1 and args[0][1][0][0] != "star":
                     eff_name, eff_args = "add", (args[0][1][0],)  # s.update({x}) = s.add(x)
+                if name == "update" and len(args) == 1 and not kwargs and args[0][0] == "comp" and args[0][1] in ("list", "gen") and is_term(args[0][2]) \
+                        and args[0][2][0] == "tuplelit" and len(args[0][2][1]) == 2 and isinstance(base, ast.Attribute) and isinstance(base.value, ast.Name) \
+                        and base.value.id in s2.env:
+                    # q.table.update((k, v) for ... ) stores v under k once per element: the loop `for ...: q.table[k] = v`
+                    k_, v_ = args[0][2][1]
+                    s2.env[base.value.id] = ("accum", "effect", s2.env[base.value.id], ("setitem-attr", base.attr, k_, v_), tuple(args[0][3]), ("const", False))
+                    return [(s2, NONE)]
                 if isinstance(root, ast.Name) and root.id in s2.env:
                     s2.env[root.id] = self._add_effect(s2.env[root.id], ("deep", self._access_path(base, state, func), eff_name, eff_args))
                 return [(s2, NONE)]
